@@ -11,7 +11,7 @@ from spellings import hsl_string
 
 MATCHERS = {}
 LABEL = {"AAA": "Very Readable", "AA": "Readable", "FAIL": "Not Readable"}
-ALPHAS = ["0", "1", "0.0", "1.0", "0.5", "0.25", "0.75", "0.000001", "0.999999", "0.001", "0.999", "0.1", "0.9"]
+ALPHAS = ["0", "1", "0.0", "1.0", "0.5", "0.25", "0.75", "0.000001", "0.999999", "0.001", "0.999", "0.1", "0.9", ".5", ".25", ".9", "1.", "0."]
 
 
 def css_channels(s):
